@@ -3,14 +3,21 @@ import steps_C18
 
 ID = "C18"
 PROP = {
-    "modules": ["Gnmi.Props.C18"],
+    "modules": ["Gnmi.Props.C18", "Gnmi.Props.C18Prog"],
     "theorems": ["Gnmi.C18." + t for t in [
         "exactly_one_cancels", "close_dooms", "variant_decreases", "close_terminates",
         "subscribe_terminates", "close_progress", "doomed_progress", "terminates", "both_return",
         "maximal_run_returns", "plain_close_terminates", "at_most_pending_sleep", "keeps_retrying",
         "returns_only_if_cancelled", "loop_continues", "loop_deterministic", "connected_first",
         "order_preserved", "order_exact", "at_most_one_after_close", "no_recv_after_that",
-        "silent_after_close", "close_after_init_waits", "driver_runs_are_reachable"]],
+        "silent_after_close", "close_after_init_waits", "driver_runs_are_reachable"]] + [
+        "Gnmi.C18Prog." + t for t in [
+        "not_closed_not_terminal", "live_not_terminal", "blocked_iff_no_S_step",
+        "responsive_not_terminal", "naive_not_terminal_false", "loop_step_persists",
+        "S_never_blocked_by_others", "loop_continues_run_from", "loop_run_short", "loop_never_stops",
+        "loop_continues_run", "live_only_S", "loop_continues_run_reach",
+        "resubscribes_after_every_end", "run_without_close_resubscribes", "live_run_not_maximal",
+        "started_vs_ended", "parentCancel_stops"]],
     "components": [
         {"c": "rc", "quick": {"n": 2500, "exhaustive": True},
          "thorough": {"n": 5000, "exhaustive": True, "seeds": 3}},
@@ -50,7 +57,15 @@ PROP = {
                       "silent_after_close). Tied to client/*.go by the rc correspondence: the real "
                       "client.Reconnect/BaseClient/CacheClient and the real gNMI transport Recv path on a scripted "
                       "stream, Close/cancel injected at gated points, traces + return classes compared with the "
-                      "model's deterministic schedule (proved to be runs of the LTS), monitors for the racy facts.",
+                      "model's deterministic schedule (proved to be runs of the LTS), monitors for the racy facts. "
+                      "Universal retry progress (Props/C18Prog.lean): while Close has not been called goroutine S is "
+                      "never deadlocked except waiting for the transport script inside a session "
+                      "(not_closed_not_terminal, exact by blocked_iff_no_S_step); steps of other threads never disable "
+                      "S's step (loop_step_persists); from every configuration just after an ended session, EVERY run "
+                      "without Close / caller-context cancellation containing 4 S-steps re-subscribes "
+                      "(loop_continues_run), and in every such run each ended session is followed by the next "
+                      "Subscribe unless the run stops with a loop step of S still enabled "
+                      "(resubscribes_after_every_end, run_without_close_resubscribes, started_vs_ended).",
         "level_note": "Proof of the protocol LTS; wall-clock bound observed (deadline monitor), not proved. Trusted: "
                       "Lean kernel, the hand-written LTS as validated by the correspondence, Go runtime semantics "
                       "below the atomic sections, the Impl hypothesis.",
